@@ -230,6 +230,7 @@ class FnSpec:
         self.ret = 'r'
         self.ghost_lines = 0
         self.twin_as = None
+        self.params = []         # rule R17 for value parameters (`_` = leave alone), positional after any self receiver
         self.tparams = []        # rule R17: names the function's own type parameters must carry (alpha-renaming)
 
 
@@ -254,6 +255,7 @@ def fn_shape(text, mask):
     contracts, iterator adaptors have weak library specs, early exits multiply the exit points).  A function whose counts GROW relative
     to the committed baseline has been restructured: a failed obligation there means "needs contract", not "property broken"."""
     code = ''.join(c if m else ' ' for c, m in zip(text, mask))
+    code = re.sub(r'#!?\[[^\]]*\]', lambda m: ' ' * len(m.group(0)), code)     # attributes are not calls
     sh = {}
     sh['loop'] = len(re.findall(r'\b(?:for|while|loop)\b', code))
     sh['exit'] = len(re.findall(r'\b(?:return|break|continue)\b', code)) + len(re.findall(r'\?(?=\s*[;.)\],}])', code))
@@ -279,6 +281,88 @@ def fn_shape(text, mask):
     calls -= {'if', 'while', 'match', 'for', 'loop', 'return', 'Some', 'Ok', 'Err', 'fn', 'in', 'let', 'else', 'move', 'as', 'mut', 'ref'}
     sh['calls'] = sorted(calls)
     return sh
+
+
+def inner_cfg_edits(text, mask, body_open, cfg):
+    """rule R10 inside function bodies: `#[cfg(P)] NODE` (statement, struct-literal field, match arm, expression followed by `,`/`;`)
+    is kept without the attribute when P holds for the configuration of this run and deleted otherwise; `cfg!(P)` becomes the literal
+    `true` / `false` - what rustc does.  Returns edits (pos, dellen, ins, False); raises LostAnchor on shapes it cannot delimit."""
+    from .rustsrc import _eval_cfg, _parse_cfg
+    edits = []
+    for m in re.finditer(r'\bcfg!\s*\(', text[body_open:]):
+        st = body_open + m.start()
+        if not mask[st]:
+            continue
+        op = body_open + m.end() - 1
+        cl = match_close(text, mask, op)
+        val = _eval_cfg(_parse_cfg(text[op + 1:cl]), cfg)
+        edits.append((st, cl + 1 - st, 'true' if val else 'false', False))
+    for m in re.finditer(r'#\[cfg\(', text[body_open:]):
+        st = body_open + m.start()
+        if not mask[st]:
+            continue
+        ob = st + 1
+        cb = match_close(text, mask, ob)
+        pred = text[st + len('#[cfg('):cb - 1]
+        active = _eval_cfg(_parse_cfg(pred), cfg)
+        if active:
+            edits.append((st, cb + 1 - st, '', False))
+            continue
+        # delimit the annotated node
+        j = cb + 1
+        n = len(text)
+        depth = 0
+        while j < n:
+            c = text[j]
+            if not mask[j]:
+                j += 1
+                continue
+            if c in '([{':
+                close = match_close(text, mask, j)
+                if c == '{' and depth == 0:
+                    # a block at node level: the node may end here (statement-like) unless it goes on
+                    k = close + 1
+                    while k < n and (text[k].isspace() or not mask[k]):
+                        k += 1
+                    rest = text[k:k + 6]
+                    if rest.startswith('else') or rest[:1] in '.?' :
+                        j = close + 1
+                        continue
+                    if rest[:1] in ',;':
+                        j = k + 1
+                        break
+                    j = close + 1
+                    break
+                j = close + 1
+                continue
+            if c in ')]}':
+                break          # end of the enclosing list: node ends before the closer
+            if c in ',;':
+                j += 1
+                break
+            j += 1
+        else:
+            raise LostAnchor('cannot delimit the node under #[cfg(%s)]' % pred)
+        edits.append((st, j - st, '', False))
+    return edits
+
+
+def _skip_generics(text, i):
+    """index just after an optional `<...>` generics list starting at or after i (whitespace skipped)"""
+    j = i
+    while j < len(text) and text[j].isspace():
+        j += 1
+    if j < len(text) and text[j] == '<':
+        depth = 0
+        while j < len(text):
+            if text[j] == '<':
+                depth += 1
+            elif text[j] == '>' and text[j - 1] != '-':
+                depth -= 1
+                if depth == 0:
+                    return j + 1
+            j += 1
+    return i
 
 
 class Extractor:
@@ -316,7 +400,7 @@ class Extractor:
         for l in raw_lines:
             st = l.strip()
             if st.startswith('//@ if-feature '):
-                active.append(active[-1] and (st.split()[2] in self.cfg['features']))
+                active.append(active[-1] and any(f in self.cfg['features'] for f in st.split()[2].split('|')))
                 lines.append('')
             elif st == '//@ else-feature':
                 prev = active.pop()
@@ -438,6 +522,8 @@ class Extractor:
                 cur.ret = bare[0]
             elif word == 'tparams':
                 cur.tparams = list(bare)
+            elif word == 'params':
+                cur.params = list(bare)
             elif word == 'end':
                 self._emit_fn(cur, cur_kind, cur_src)
                 cur, target, cur_scope = None, None, None
@@ -692,6 +778,11 @@ class Extractor:
         has_body = it.body_open is not None
         body_open = (it.body_open - it.attr_end) if has_body else None
         edits = []   # (pos, dellen, ins, is_ghost)
+        # --- conditional compilation inside the body (evaluated for the feature set of this run, like rustc)
+        if has_body and not rel.startswith('rustc-expanded'):
+            for e in inner_cfg_edits(text, mask, body_open, self.cfg):
+                edits.append(e)
+                self.log.rw('R10', rel, line0 + text.count('\n', 0, e[0]), norm(text[e[0]:e[0] + e[1]])[:120], e[2] or '(removed / attribute dropped for this configuration)')
         # --- anchored insertions / rewrites (searched in the ORIGINAL text)
         sub = Source(rel, text=text)
 
@@ -950,6 +1041,30 @@ class Extractor:
                         if mask[mo.start()]:
                             edits.append((mo.start(), len(old), new, False))
                     self.log.rw('R17', rel, line0, 'fn %s<%s ..>' % (spec.name, old), 'fn %s<%s ..>  (type parameter renamed throughout the function)' % (spec.name, new))
+        if spec.params:
+            mg = re.search(r'\bfn\s+' + re.escape(spec.name) + r'\b', text)
+            po = text.index('(', _skip_generics(text, mg.end()))
+            pc = match_close(text, mask, po)
+            depth, start, names = 0, po + 1, []
+            for j in range(po + 1, pc + 1):
+                c = text[j]
+                if c in '<([{':
+                    depth += 1
+                elif c in '>)]}' and j < pc:
+                    depth -= 1
+                if (c == ',' and depth == 0) or j == pc:
+                    piece = text[start:j]
+                    if piece.strip() and not re.match(r'\s*(?:&\s*(?:\'\w+\s+)?)?(?:mut\s+)?self\b', piece):
+                        mm = re.match(r'\s*(?:mut\s+)?([A-Za-z_]\w*)\s*:', piece)
+                        names.append(mm.group(1) if mm else None)
+                    start = j + 1
+            for old, new in zip(names, spec.params):
+                if new == '_' or old is None or old == new:
+                    continue
+                for mo in re.finditer(r'(?<![\w.])' + re.escape(old) + r'\b', text):
+                    if mask[mo.start()]:
+                        edits.append((mo.start(), len(old), new, False))
+                self.log.rw('R17', rel, line0, 'fn %s(.. %s ..)' % (spec.name, old), 'fn %s(.. %s ..)  (parameter renamed throughout the function to the name the contract uses)' % (spec.name, new))
         if kind == 'twinfn' and spec.twin_as:
             m = re.search(r'\bfn\s+' + re.escape(spec.name) + r'\b', text)
             edits.append((m.start(), m.end() - m.start(), 'fn ' + spec.twin_as, False))
@@ -1034,7 +1149,7 @@ class Extractor:
 def expanded_source(repo, cache_dir, features=None):
     """macro-expanded src/lib.rs of the current working tree (rustc does the expansion); features=None: the crate's default features"""
     h = hashlib.sha1()
-    if features:
+    if features is not None:
         h.update(('features=' + ','.join(sorted(features))).encode())
     for root, _, files in sorted(os.walk(os.path.join(repo, 'src'))):
         for f in sorted(files):
@@ -1048,7 +1163,7 @@ def expanded_source(repo, cache_dir, features=None):
     if not os.path.exists(path):
         tdir = os.path.join(cache_dir, 'expand-target')
         env = dict(os.environ, CARGO_NET_OFFLINE='true', CARGO_TARGET_DIR=tdir)
-        fl = ['--no-default-features', '--features', ','.join(sorted(features))] if features else []
+        fl = (['--no-default-features'] + (['--features', ','.join(sorted(features))] if features else [])) if features is not None else []
         p = subprocess.run(['cargo', '+nightly', 'rustc', '--lib', '--offline'] + fl + ['--', '-Zunpretty=expanded'],
                            cwd=repo, env=env, stdout=subprocess.PIPE, stderr=subprocess.PIPE, text=True)
         if p.returncode != 0:
